@@ -318,11 +318,36 @@ def check_parse_error_carries_remainder(eng, run):
     run.floor("C02.keep protocol handlers of incremental deserialization errors", n, 2)
 
 
+def check_scanner_result_unchanged(eng, run):
+    """the buffered path takes the frame bounds from the shared separator scanner as they are: the names bound from
+    `yield from _buffered_readuntil(...)` (separator index, offset of the next frame, received length) are not re-bound or advanced
+    afterwards.  Skipping 'superfluous' separators that happen to be in the buffer already makes empty frames vanish on this path
+    only, and only for some chunkings."""
+    n = 0
+    for fn in eng.db.all_functions():
+        if isinstance(fn.node, ast.Lambda) or fn.name != "buffered_incremental_deserialize" or not fn.module.name.startswith("easynetwork.serializers"):
+            continue
+        for st in own_nodes(fn.node):
+            if isinstance(st, (ast.Assign, ast.AnnAssign)) and isinstance(getattr(st, "value", None), ast.YieldFrom) and isinstance(st.value.value, ast.Call) \
+                    and (dotted(st.value.value.func) or "").split(".")[-1] == "_buffered_readuntil":
+                tg = st.targets[0] if isinstance(st, ast.Assign) else st.target
+                names = {x.id for x in (tg.elts if isinstance(tg, ast.Tuple) else [tg]) if isinstance(x, ast.Name)}
+                n += 1
+                rebinds = [x for x in own_nodes(fn.node) if x is not st and isinstance(x, (ast.Assign, ast.AugAssign, ast.AnnAssign, ast.NamedExpr))
+                           and any(isinstance(t, ast.Name) and t.id in names for t in (x.targets if isinstance(x, ast.Assign) else [x.target])) and x.lineno > st.lineno]
+                for x in rebinds[:1]:
+                    run.finding("C02.scan", fn, x, f"`{ast.unparse(x)[:60]}` moves a frame bound that the shared separator scanner has computed: the buffered path then cuts the stream at other places "
+                                "than the non-buffered one (frames dropped or merged depending on what is already in the buffer)")
+                run.ob("C02.scan", f"{fn.short}:scanner-result-used-unchanged", not rebinds, bound=sorted(names))
+    run.floor("C02.scan buffered deserializers built on the shared scanner", n, 2)
+
+
 def run(eng, run):
     from sa.anchors import verify as _verify_anchor_names
     _verify_anchor_names(eng, run)
     run.not_decided += NOT_DECIDED
     run.attempt(check_frames_decoded, eng, run)
+    run.attempt(check_scanner_result_unchanged, eng, run)
     run.attempt(check_parse_error_carries_remainder, eng, run)
     run.attempt(check_bound, eng, run)
     run.attempt(check_keep, eng, run)
